@@ -4,6 +4,8 @@
   Being proved: any `ok` result of the local / recursive / forwarding machine is ChainShaped.
 -/
 import Resolved.Model.Resolver
+import Resolved.Proofs.ResolverLocalChain
+import Resolved.Proofs.ResolverLocalExamples
 
 namespace Resolved
 
@@ -19,5 +21,223 @@ theorem C10_no_alias_twice (fuel : Nat) (ctx : Ctx) (q : Question)
     (hl : ctx.stack.length ≠ RECURSION_LIMIT) (h : q ∈ ctx.stack) :
     (resolveLocal (fuel + 1) ctx q).2 = .error (.duplicateQuestion q) := by
   simp [resolveLocal, Ctx.atRecursionLimit, Ctx.isDuplicate, hl, h]
+
+/-! ## Loops end safely: depth and fuel of the local resolver
+
+  `resolveLocal (fuel + 1) = localStep (resolveLocal fuel)` (`resolveLocal_succ`, by `rfl`): one
+  unit of fuel per native recursion level.  `localStep rec ctx q` is `resolve_local`'s body with
+  the recursive call abstracted as `rec`. -/
+
+/-- Depth bound.  Started with at most `RECURSION_LIMIT` stacked questions, a level calls itself
+    only with the question pushed on the stack — which therefore still holds at most
+    `RECURSION_LIMIT` questions — never with a question already on it, and with the same zones,
+    clock, type and class asked (`IsSubcall`): its outcome is a function of the values of the
+    recursive function at such arguments alone.  The stack never exceeds `RECURSION_LIMIT`. -/
+theorem C10_depth_bound (ctx : Ctx) (q : Question) (hlen : ctx.stack.length ≤ RECURSION_LIMIT)
+    (r1 r2 : Ctx → Question → LocalOut)
+    (h : ∀ c' q', IsSubcall ctx q c' q' → r1 c' q' = r2 c' q') :
+    localStep r1 ctx q = localStep r2 ctx q :=
+  localStep_congr hlen h
+
+/-- … so the native recursion is at most `RECURSION_LIMIT + 1 - stack length` levels deep: that
+    much fuel never runs out (`outOfFuel` is not returned) and any larger amount gives the very
+    same context and result. -/
+theorem C10_local_fuel_suffices (fuel : Nat) (ctx : Ctx) (q : Question)
+    (hlen : ctx.stack.length ≤ RECURSION_LIMIT)
+    (hfuel : RECURSION_LIMIT + 1 - ctx.stack.length ≤ fuel) :
+    (resolveLocal fuel ctx q).2 ≠ .error .outOfFuel ∧
+    ∀ fuel', fuel ≤ fuel' → resolveLocal fuel' ctx q = resolveLocal fuel ctx q := by
+  constructor
+  · obtain ⟨n, rfl⟩ : ∃ n, fuel = n + 1 := ⟨fuel - 1, by omega⟩
+    exact resolveLocal_succ_ne_outOfFuel n ctx q
+  · exact resolveLocal_fuel_mono fuel ctx q hlen (by omega)
+
+/-- the fuel the callers pass (`RECURSION_LIMIT + 1`) suffices for every stack within the limit. -/
+theorem C10_local_fuel_default (ctx : Ctx) (q : Question) (hlen : ctx.stack.length ≤ RECURSION_LIMIT)
+    (fuel : Nat) (hf : RECURSION_LIMIT + 1 ≤ fuel) :
+    resolveLocal fuel ctx q = resolveLocal (RECURSION_LIMIT + 1) ctx q :=
+  (C10_local_fuel_suffices (RECURSION_LIMIT + 1) ctx q hlen (by omega)).2 fuel hf
+
+/-- With at least one unit of fuel local resolution ends in a result or in one of five errors —
+    never in `outOfFuel`, whatever the recursive calls did (their failures are absorbed into a
+    partial chain). -/
+theorem C10_local_errors (fuel : Nat) (ctx : Ctx) (q : Question) (e : ResolutionError)
+    (h : (resolveLocal (fuel + 1) ctx q).2 = .error e) :
+    e = .recursionLimit ∨ e = .duplicateQuestion q ∨ e = .localDelegationMissingNS ∨
+    e = .cacheTypeMismatch ∨ e = .deadEnd q := by
+  rw [resolveLocal_succ] at h; exact localStep_error h
+
+/-- The question stack is restored, zones and clock are untouched (only the cache's bookkeeping
+    may change), however the walk ends. -/
+theorem C10_stack_restored (fuel : Nat) (ctx : Ctx) (q : Question) :
+    (resolveLocal fuel ctx q).1.stack = ctx.stack ∧ (resolveLocal fuel ctx q).1.zones = ctx.zones ∧
+    (resolveLocal fuel ctx q).1.now = ctx.now := by
+  obtain ⟨h1, h2, h3⟩ := resolveLocal_frame fuel ctx q
+  exact ⟨h3, h1, h2⟩
+
+/-- The questions on the stack stay pairwise distinct along a walk (the duplicate guard). -/
+theorem C10_stack_distinct (ctx : Ctx) (q : Question) (c' : Ctx) (q' : Question)
+    (h : IsSubcall ctx q c' q') (hn : ctx.stack.Nodup) : c'.stack.Nodup := by
+  obtain ⟨hs, _, hq, _⟩ := h
+  rw [hs]
+  exact List.nodup_append.mpr ⟨hn, by simp, by
+    intro a ha b hb
+    simp only [List.mem_singleton] at hb
+    subst hb
+    intro hab; subst hab; exact hq ha⟩
+
+/-! ## CNAME chains are returned whole and in order (local resolver)
+
+  `ChainShaped qn qtype rrs` (Proofs/ResolverLocalChain.lean): `rrs = cs ++ fs` where `cs` is an
+  alias chain from `qn` (`IsChain qn cs e`: each record is a CNAME record, the first owned by `qn`,
+  each next one owned by its predecessor's target, the last pointing at `e`; see `IsChain.link`,
+  `IsChain.last`, `IsChain.all_cname` for the index form), the owners of `cs` are pairwise distinct,
+  and every record of `fs` has the asked type, is owned by `e` and is not an alias.
+
+  Hypotheses on the data sources:
+  * (H-zone) `ZoneAnswersTyped ctx.zones`: zone answers carry records of the asked type and alias
+    verdicts carry a record of type CNAME.  It follows (`zoneAnswersTyped_of_typed`) from the
+    structural invariant `ZonesTyped` (record maps keyed by their records' type).  That zone
+    records are owned by the query name needs no hypothesis (`Zones.resolve_owned`, from C02).
+  * (H-cache) `CacheTyped ctx.cache`: cache invariant I6 (tuples under key `rk` have type `rk`);
+    it is preserved by cache reads (`cacheGet_typed`) and holds of the empty cache.  That cached
+    records are owned by the looked-up name needs no hypothesis (`cacheGet_owner`).
+  `LocalResult.answerRrs`: the records of `.done` / `.partialAnswer` / `.cname` outcomes (`none` for a
+  referral, which carries NS records). -/
+
+/-- MAIN (local): for a question of a type other than CNAME and ANY, the records of every `ok`
+    outcome are an alias chain from the question name, without repeated owner, followed only by
+    records of the asked type owned by the final target; no link's owner is a question already on
+    the stack. -/
+theorem C10_local_chain (fuel : Nat) (ctx : Ctx) (q : Question)
+    (hzone : ZoneAnswersTyped ctx.zones) (hcache : CacheTyped ctx.cache)
+    (h5 : q.qtype ≠ RT_CNAME) (h255 : q.qtype ≠ QTYPE_WILDCARD)
+    (r : LocalResult) (hr : (resolveLocal fuel ctx q).2 = .ok r) (rrs : List RR)
+    (hrrs : r.answerRrs = some rrs) :
+    ChainShaped q.name q.qtype rrs ∧ ChainShapedOff ctx.stack q rrs := by
+  have h := resolveLocal_chain fuel ctx q hzone hcache h5 h255 r hr
+  cases r with
+  | done res => cases hrrs; exact ⟨h.shaped, h⟩
+  | partialAnswer rs => cases hrrs; exact ⟨h.shaped, h⟩
+  | delegation rs s d => cases hrrs
+  | cname rs cq =>
+    cases hrrs
+    obtain ⟨e, _, hd, _⟩ := h
+    have : ChainShapedOff ctx.stack q rrs := ⟨rrs, [], e, by simp, hd⟩
+    exact ⟨this.shaped, this⟩
+
+/-- An unfinished walk (`.cname rrs cq`) hands over a non-empty pure alias chain from the question
+    name, and the question to continue with asks the same type and class about the chain's end. -/
+theorem C10_local_cname_continuation (fuel : Nat) (ctx : Ctx) (q : Question)
+    (hzone : ZoneAnswersTyped ctx.zones) (hcache : CacheTyped ctx.cache)
+    (h5 : q.qtype ≠ RT_CNAME) (h255 : q.qtype ≠ QTYPE_WILDCARD)
+    (rrs : List RR) (cq : Question) (hr : (resolveLocal fuel ctx q).2 = .ok (.cname rrs cq)) :
+    rrs ≠ [] ∧ IsChain q.name rrs cq.name ∧ (rrs.map (·.name)).Nodup ∧
+      cq.qtype = q.qtype ∧ cq.qclass = q.qclass := by
+  obtain ⟨e, hne, hd, hcq⟩ := resolveLocal_chain fuel ctx q hzone hcache h5 h255 _ hr
+  subst hcq
+  exact ⟨hne, hd.chain, hd.nodup, rfl, rfl⟩
+
+/-- In authoritative-only mode the whole reply has the shape. -/
+theorem C10_auth_only_chain (ctx : Ctx) (q : Question)
+    (hzone : ZoneAnswersTyped ctx.zones) (hcache : CacheTyped ctx.cache)
+    (h5 : q.qtype ≠ RT_CNAME) (h255 : q.qtype ≠ QTYPE_WILDCARD) (soa : RR) (rrs : List RR)
+    (hr : (resolveAuthoritativeOnly ctx q).2 = .ok (.authoritative rrs soa))
+    (hnd : ∀ rs s d, (resolveLocal (RECURSION_LIMIT + 1) ctx q).2 ≠ .ok (.delegation rs s d)) :
+    ChainShaped q.name q.qtype rrs := by
+  unfold resolveAuthoritativeOnly at hr
+  simp only at hr
+  cases hl : (resolveLocal (RECURSION_LIMIT + 1) ctx q).2 with
+  | error e => rw [hl] at hr; cases hr
+  | ok r =>
+    rw [hl] at hr
+    simp only [Except.map, Except.ok.injEq] at hr
+    cases r with
+    | delegation rs s d => exact absurd hl (hnd rs s d)
+    | done res =>
+      simp only [LocalResult.toResolved] at hr; subst hr
+      exact (C10_local_chain _ ctx q hzone hcache h5 h255 _ hl rrs rfl).1
+    | partialAnswer rs => simp [LocalResult.toResolved] at hr
+    | cname rs cq => simp [LocalResult.toResolved] at hr
+
+/-! ## The hypotheses are established by the constructors (Proofs/ResolverLocalTyped.lean)
+
+  * every zone built by `Zone::new` and insertions is consistently keyed (`Zone.typed_of_reachable`),
+    hence any `Zones` all of whose zones are so built satisfies (H-zone) (`zonesTyped_of_all`,
+    `zoneAnswersTyped_of_typed`); so does every `Zones.Configured` — `Zones::new()` followed by
+    `insert_merge` of built zones (apexes being names `from_labels` builds), merges included
+    (`Zones.Configured.answersTyped`, through the C02/C12 representation invariant).
+  * the empty cache satisfies I6 and `SharedCache::insert_all` and cache reads keep it
+    (`cacheTyped_new`, `sharedInsertAll_typed`, `cacheGet_typed`). -/
+
+theorem C10_hypotheses_established :
+    (∀ apex soa ops z, Zone.Reachable apex soa ops z → z.records.Typed) ∧
+    (∀ zs : Zones, (∀ k z, Zones.lookup zs.zones k = some z → z.records.Typed) → ZoneAnswersTyped zs) ∧
+    (∀ zs : Zones, Zones.Configured zs → ZoneAnswersTyped zs ∧ ZonesKeyed zs) ∧
+    (∀ n, CacheTyped (PCache.new n)) ∧
+    (∀ c rrs now, CacheTyped c → CacheTyped (sharedInsertAll c rrs now)) ∧
+    (∀ c name qtype now, CacheTyped c → CacheTyped (cacheGet c name qtype now).1) :=
+  ⟨fun _ _ _ _ h => Zone.typed_of_reachable h,
+   fun _ h => zoneAnswersTyped_of_typed (zonesTyped_of_all h),
+   fun _ h => ⟨h.answersTyped, h.repr.1⟩,
+   cacheTyped_new,
+   fun _ rrs now h => sharedInsertAll_typed rrs now h,
+   fun _ name qtype now h => (cacheGet_typed h name qtype now).1⟩
+
+/-- MAIN, hypotheses discharged for the server's own data: zones as configured (merges included),
+    any cache satisfying I6 (the empty cache, and whatever insertions and reads make of it). -/
+theorem C10_local_chain_configured (fuel : Nat) (ctx : Ctx) (q : Question)
+    (hzone : Zones.Configured ctx.zones) (hcache : CacheTyped ctx.cache)
+    (h5 : q.qtype ≠ RT_CNAME) (h255 : q.qtype ≠ QTYPE_WILDCARD)
+    (r : LocalResult) (hr : (resolveLocal fuel ctx q).2 = .ok r) (rrs : List RR)
+    (hrrs : r.answerRrs = some rrs) : ChainShaped q.name q.qtype rrs :=
+  (C10_local_chain fuel ctx q hzone.answersTyped hcache h5 h255 r hr rrs hrrs).1
+
+/-! ## Non-vacuity (fixtures: Proofs/ResolverLocalExamples.lean) -/
+
+/-- `Zones.Configured` is inhabited beyond the empty configuration. -/
+example : Zones.Configured (Zones.empty.insert (Zone.new Ex.nE none)) :=
+  .merge Zones.empty _ Ex.nE none [] _ .empty (by decide) rfl rfl
+
+/-- the fixture satisfies (H-zone) and (H-cache). -/
+example : ZoneAnswersTyped Ex.ctx1.zones ∧ CacheTyped Ex.ctx1.cache := ⟨Ex.zones_answers_typed, Ex.cache1_typed⟩
+
+/-- `c.e. A`: alias and target from the zone — a chain of one link followed by the address. -/
+example : (resolveLocal 33 Ex.ctx1 (Ex.qA Ex.nCE)).2 = .ok (.done (.authoritative [Ex.rrC, Ex.rrW] Ex.soaRRE)) ∧
+    ChainShaped Ex.nCE RT_A [Ex.rrC, Ex.rrW] :=
+  ⟨Ex.run_c Ex.ctx1 rfl rfl,
+   (C10_local_chain 33 Ex.ctx1 (Ex.qA Ex.nCE) Ex.zones_answers_typed Ex.cache1_typed (by decide) (by decide) _
+     (Ex.run_c Ex.ctx1 rfl rfl) _ rfl).1⟩
+
+/-- `k. A`: both the alias `k. CNAME o.` and the address `o. A 7` come from the cache. -/
+example : (resolveLocal 33 Ex.ctx1 (Ex.qA Ex.nK)).2 = .ok (.done (.nonAuthoritative [Ex.rrK, Ex.rrO] none)) ∧
+    ChainShaped Ex.nK RT_A [Ex.rrK, Ex.rrO] :=
+  ⟨Ex.run_k,
+   (C10_local_chain 33 Ex.ctx1 (Ex.qA Ex.nK) Ex.zones_answers_typed Ex.cache1_typed (by decide) (by decide) _
+     Ex.run_k _ rfl).1⟩
+
+/-- `d.e. A`, cold cache: an unfinished walk handing over the chain and the question to go on with. -/
+example : (resolveLocal 33 Ex.ctx0 (Ex.qA Ex.nDE)).2 = .ok (.cname [Ex.rrD] (Ex.qA Ex.nO)) ∧
+    IsChain Ex.nDE [Ex.rrD] Ex.nO :=
+  ⟨Ex.run_d_cold,
+   (C10_local_cname_continuation 33 Ex.ctx0 (Ex.qA Ex.nDE) Ex.zones_answers_typed (cacheTyped_new _) (by decide)
+     (by decide) _ _ Ex.run_d_cold).2.1⟩
+
+/-- `p.e. A`: the alias loop `p.e. → q.e. → p.e.` ends in a partial chain in which each alias occurs
+    once (owners pairwise distinct), never in a hang or a repeated record. -/
+example : (resolveLocal 33 Ex.ctx1 (Ex.qA Ex.nPE)).2 = .ok (.cname [Ex.rrP, Ex.rrQ] (Ex.qA Ex.nPE)) ∧
+    IsChain Ex.nPE [Ex.rrP, Ex.rrQ] Ex.nPE ∧ ([Ex.rrP, Ex.rrQ].map (·.name)).Nodup :=
+  have h := C10_local_cname_continuation 33 Ex.ctx1 (Ex.qA Ex.nPE) Ex.zones_answers_typed Ex.cache1_typed
+    (by decide) (by decide) _ _ Ex.run_p
+  ⟨Ex.run_p, h.2.1, h.2.2.1⟩
+
+/-- the two guards do fire: a question already on the stack, and a full stack. -/
+example : (resolveLocal 5 { Ex.ctx0 with stack := [Ex.qA Ex.nCE] } (Ex.qA Ex.nCE)).2 =
+    .error (.duplicateQuestion (Ex.qA Ex.nCE)) :=
+  C10_no_alias_twice 4 _ _ (by decide) (by simp)
+
+example : (resolveLocal 5 { Ex.ctx0 with stack := List.replicate 32 (Ex.qA Ex.nCE) } (Ex.qA Ex.nWE)).2 =
+    .error .recursionLimit :=
+  C10_limit_stops 4 _ _ (by simp [RECURSION_LIMIT])
 
 end Resolved
